@@ -63,6 +63,14 @@ DoEdit(e) ==
   /\ edit' = e
   /\ UNCHANGED <<orig, th, pc, seen, rejected>>
 
+\* a request that is NOT tunnelled and is not a POST picks up an override header on its way (a proxy, a buggy peer): only a POST
+\* can be a tunnelled request, so the header is to be ignored
+StrayOverride ==
+  /\ pc = "wire" /\ edit = "none" /\ ~Tunnelled /\ wire.verb # "POST" /\ "stray_override" \in Edits
+  /\ wire' = [wire EXCEPT !.override = IF wire.verb = "DELETE" THEN "GET" ELSE "DELETE"]
+  /\ edit' = "stray_override"
+  /\ UNCHANGED <<orig, th, pc, seen, rejected>>
+
 \* DecodeTunnelledQuery, then what routing sees
 RECURSIVE Parts(_, _, _)
 Parts(ps, q, b) ==      \* fold over the multipart parts: [ok, query, body]
@@ -91,7 +99,7 @@ ServerReceive ==
             [] OTHER -> rejected' = TRUE /\ seen' = <<>>      \* a tunnelled request of unknown content type
   /\ UNCHANGED <<orig, th, wire, edit>>
 
-Next == ClientSend \/ (\E e \in Edits : DoEdit(e)) \/ ServerReceive \/ (pc = "done" /\ UNCHANGED vars)
+Next == ClientSend \/ (\E e \in Edits : DoEdit(e)) \/ StrayOverride \/ ServerReceive \/ (pc = "done" /\ UNCHANGED vars)
 Spec == Init /\ [][Next]_vars
 
 -----------------------------------------------------------------------------
@@ -104,8 +112,8 @@ UntouchedBelowThreshold ==
 TunnelledIffAbove == (pc # "client" /\ edit = "none") => (Tunnelled <=> Tunnels(orig.query, th))
 
 \* transparency: the undamaged exchange shows the server the original request, field by field
-Transparent == (pc = "done" /\ edit = "none") => (~rejected /\ seen = orig)
+Transparent == (pc = "done" /\ edit \in {"none", "stray_override"}) => (~rejected /\ seen = orig)
 
 \* every damaged tunnelled request is rejected
-DamagedRejected == (pc = "done" /\ edit # "none") => rejected
+DamagedRejected == (pc = "done" /\ edit \notin {"none", "stray_override"}) => rejected
 =============================================================================
